@@ -224,8 +224,10 @@ def enc_expire(daddr, spi, proto, hard, family=socket.AF_INET, saddr=None):
     return nlmsg(EXPIRE, bytes(b))
 
 
-def enc_ack(request, error=0):
+def enc_ack(request, error=0, port_id=0):
     """NLMSG_ERROR reply as netlink_ack builds it: an acknowledgement (error 0) echoes the request HEADER, an error echoes the WHOLE request
     (the socket did not ask for NETLINK_CAP_ACK)."""
     echoed = bytes(request[:16]) if error == 0 else bytes(request)
-    return nlmsg(NLMSG_ERROR, struct.pack('=i', error) + echoed, seq=struct.unpack_from('=I', request, 8)[0])
+    # nlmsg_pid of an answer is the PORT ID of the asking socket: the process id only for the first netlink socket of a process, a kernel-chosen
+    # value (0xFFFFEFFF downwards) for every further one - and the daemon keeps its event socket open all its life
+    return nlmsg(NLMSG_ERROR, struct.pack('=i', error) + echoed, seq=struct.unpack_from('=I', request, 8)[0], pid=port_id)
